@@ -87,7 +87,10 @@ def member_texts(spec):
 
 
 def strings_for(p, vs):
-    alts = [st.sampled_from(TEXTS), st.sampled_from(LONG), exotic_padded(),
+    # (a container or structured target walks a text that is no document element by element: the 100 000-character texts
+    # cost seconds per call there and show nothing the 5 000-character ones do not)
+    leafy = U.strip(p.spec)["k"] in ("scalar", "enum", "literal", "none", "optional", "union")
+    alts = [st.sampled_from(TEXTS), st.sampled_from(LONG if leafy else [x for x in LONG if len(x) <= 6000]), exotic_padded(),
             st.text(alphabet=st.characters(exclude_categories=["Cs"]), max_size=12)]
     mt = member_texts(p.spec)
     if mt:
